@@ -42,6 +42,8 @@ structure FwdSim where
   downCur : Option (List Nat) := none
   /-- first close notification for the destination port delivered to the forwarder: (graceful, line) -/
   closeRx : Option (Bool × Nat) := none
+  /-- line at which `ReceiveFinish` for the destination port (its receiver was dropped) was delivered to the forwarder -/
+  finRx : Option Nat := none
   /-- line at which the forwarding endpoint put `ReceiveClose` for the source port on the wire -/
   closeTx : Option Nat := none
   /-- `forward` returned: line -/
